@@ -121,6 +121,9 @@ DOMAIN = {   # data values, model values (inside the loss's domain)
     "beta": ([0.25, 1.0, 2.5], [1e-2, 0.1, 0.5, 1.0, 2.5, 10.0]),
 }
 RVALS = [1.0, 3.0, 4.5]
+# integer data values inside each loss's domain whose squares / negatives do not fit 8 bits
+INT_EXTRA = {"gaussian": [100.0, -100.0], "poisson": [100.0], "poisson_log": [100.0], "rayleigh": [12.0, 100.0], "gamma": [100.0],
+             "negative_binomial": [100.0], "beta": [12.0], "huber": [100.0, -100.0]}
 
 
 def handle_event(st: dict) -> dict:
@@ -130,20 +133,22 @@ def handle_event(st: dict) -> dict:
     name = st["name"]
     try:
         xs, ms = DOMAIN[name]
-        X, M = np.meshgrid(np.array(xs), np.array(ms), indexing="ij")
         obj = getattr(Objectives, name.upper())
         la = ga = True
         worst = 0.0
-        # integer-valued data (counts, indicators) also as stored integers: the element type is a presentation
-        xtypes = [float, np.int64, np.uint8] if all(float(x).is_integer() and x >= 0 for x in xs) else [float]
-        for r, xt in [(r, xt) for r in (RVALS if name == "negative_binomial" else [1.0]) for xt in xtypes]:
-            X = X.astype(xt)
+        # the integer data values of the domain also as stored integers (counts, indicators, measured values kept in 8
+        # bits): the element type of the data is a presentation; the oracle always computes in double precision
+        ints = [x for x in xs + INT_EXTRA.get(name, []) if float(x).is_integer()]
+        variants = [(xs, float)] + ([(ints, t) for t in (np.int64, np.int8) + ((np.uint8,) if min(ints) >= 0 else ())] if ints else [])
+        for r, (vx, xt) in [(r, v) for r in (RVALS if name == "negative_binomial" else [1.0]) for v in variants]:
+            Xf, M = np.meshgrid(np.array(vx, dtype=float), np.array(ms), indexing="ij")
+            X = Xf.astype(xt)
             extra = r if name == "negative_binomial" else (st["bn"] / st["bd"] if name == "beta" else None)
             f, g, _ = setup(obj, additional_parameter=extra) if extra is not None else setup(obj)
             with np.errstate(all="ignore"):
                 fv, gv = np.asarray(f(X, M), dtype=float), np.asarray(g(X, M), dtype=float)
-                fs = eval_terms(st["loss"], X, M, r, H.EPS)
-                gs = eval_terms(st["dloss"], X, M, r, H.EPS)
+                fs = eval_terms(st["loss"], Xf, M, r, H.EPS)
+                gs = eval_terms(st["dloss"], Xf, M, r, H.EPS)
             tol_f = 1e-9 * np.maximum(1.0, np.abs(fs))
             tol_g = 1e-9 * np.maximum(1.0, np.abs(gs))
             la = la and bool(np.all(np.abs(fv - fs) <= tol_f))
